@@ -281,7 +281,8 @@ fn join_line(
 pub fn stroke_to_path(path: &Path, style: &StrokeStyle) -> Path {
     let mut stroked_path = PathBuilder::new();
 
-    if style.width <= 0. {
+    // a NaN width fails every comparison: it must not get past this test
+    if !(style.width > 0.) {
         return stroked_path.finish();
     }
 
